@@ -805,6 +805,7 @@ type c13Report struct {
 	Samples     []string       `json:"samples"`
 	Files       []string       `json:"files"`
 	DistinctBlk int            `json:"distinct_blocks"`
+	Panics      []string       `json:"panics"`
 }
 
 func c13Main(args []string) int {
@@ -825,7 +826,16 @@ func c13Main(args []string) int {
 	rep := c13Report{Hist: map[string]int{}}
 	chains := []c13Chain{}
 	for i := 0; i < *nchains; i++ {
-		chains = append(chains, c13RunChain(*seed, *first+i, *nblocks))
+		func() {
+			// a panic of the real application inside a whole-app run (BeginBlock recovers it and
+			// closes the app; the next call then fails) is reported, the other drivers still run
+			defer func() {
+				if rr := recover(); rr != nil {
+					rep.Panics = append(rep.Panics, fmt.Sprintf("chain %d: %v", *first+i, rr))
+				}
+			}()
+			chains = append(chains, c13RunChain(*seed, *first+i, *nblocks))
+		}()
 	}
 	pcs := []c13PCase{}
 	if *replayP != "" {
